@@ -319,13 +319,13 @@ pub fn gen_ops(cfg: &Cfg, double: bool, m: &Model, back_offered: bool, out: &mut
     }
     if a & A_ITER_MUT != 0 {
         // by-value consumers built on fold / try_fold
-        out.push(Op::IterMutForEach { writes: vec![] });
+        out.push(Op::IterMutForEach { writes: vec![], pre: vec![], rev: false });
         for &p in &cfg.prios {
-            out.push(Op::IterMutForEach { writes: vec![Some(p); n] });
+            out.push(Op::IterMutForEach { writes: vec![Some(p); n], pre: vec![], rev: false });
             for j in 0..n.min(6) {
                 let mut w = vec![None; n];
                 w[j] = Some(p);
-                out.push(Op::IterMutForEach { writes: w });
+                out.push(Op::IterMutForEach { writes: w, pre: vec![], rev: false });
                 out.push(Op::IterMutFind { stop_at: j as u32, prio: p });
             }
         }
@@ -333,7 +333,27 @@ pub fn gen_ops(cfg: &Cfg, double: bool, m: &Model, back_offered: bool, out: &mut
             // mirror all priorities (raises the low ones, lowers the high ones)
             let lo = *cfg.prios.iter().min().unwrap() as i64;
             let hi = *cfg.prios.iter().max().unwrap() as i64;
-            out.push(Op::IterMutForEach { writes: (0..n).map(|i| Some(if i % 2 == 0 { hi as i32 } else { lo as i32 })).collect() });
+            out.push(Op::IterMutForEach { writes: (0..n).map(|i| Some(if i % 2 == 0 { hi as i32 } else { lo as i32 })).collect(), pre: vec![], rev: false });
+        }
+        // for_each / rev().for_each after the iterator was advanced by hand (from either end)
+        {
+            let mut pres: Vec<Vec<bool>> = vec![vec![false], vec![false, false]];
+            if back_offered && a & A_ITER_MUT_BACK != 0 {
+                pres.extend([vec![true], vec![false, true], vec![true, false], vec![true, true], vec![false, true, false]]);
+            }
+            let hi = *cfg.prios.iter().max().unwrap();
+            let lo = *cfg.prios.iter().min().unwrap();
+            for pre in pres {
+                for p in [lo, hi] {
+                    out.push(Op::IterMutForEach { writes: vec![Some(p); n], pre: pre.clone(), rev: false });
+                    if back_offered {
+                        out.push(Op::IterMutForEach { writes: vec![Some(p); n], pre: pre.clone(), rev: true });
+                    }
+                }
+            }
+            if back_offered {
+                out.push(Op::IterMutForEach { writes: vec![Some(hi); n], pre: vec![], rev: true });
+            }
         }
         let mut dirs: Vec<bool> = vec![false];
         if a & A_ITER_MUT_BACK != 0 && back_offered {
@@ -697,17 +717,17 @@ pub fn gen_ops_large(cfg: &Cfg, double: bool, m: &Model, snap: &Snap, back_offer
         }
     }
     if a & A_ITER_MUT != 0 && n > 0 {
-        out.push(Op::IterMutForEach { writes: vec![] });
+        out.push(Op::IterMutForEach { writes: vec![], pre: vec![], rev: false });
         for &p in &[lo, hi] {
-            out.push(Op::IterMutForEach { writes: vec![Some(p); n] });
+            out.push(Op::IterMutForEach { writes: vec![Some(p); n], pre: vec![], rev: false });
         }
-        out.push(Op::IterMutForEach { writes: (0..n).map(|i| Some(if i % 2 == 0 { hi } else { lo })).collect() });
-        out.push(Op::IterMutForEach { writes: snap.slots.iter().map(|s| Some(mirror(s.0))).collect() });
+        out.push(Op::IterMutForEach { writes: (0..n).map(|i| Some(if i % 2 == 0 { hi } else { lo })).collect(), pre: vec![], rev: false });
+        out.push(Op::IterMutForEach { writes: snap.slots.iter().map(|s| Some(mirror(s.0))).collect(), pre: vec![], rev: false });
         for &j in &tslots {
             for &p in &cfg.prios {
                 let mut w = vec![None; j + 1];
                 w[j] = Some(p);
-                out.push(Op::IterMutForEach { writes: w });
+                out.push(Op::IterMutForEach { writes: w, pre: vec![], rev: false });
                 out.push(Op::IterMutFind { stop_at: j as u32, prio: p });
             }
         }
